@@ -14,7 +14,8 @@
    with the one the real library produces through a recording allocator, token by token.
    Also kept: the trace monitor of the first version (Impl/Ledger.v), proved sound, which judges the REAL traces. *)
 From Coq Require Import ZArith List Bool.
-From PBC Require Import Impl.Desc Impl.Mem Impl.Canon Impl.Ledger Impl.Heap Impl.HeapInv Proofs.LedgerSound Proofs.HeapSafe Proofs.Examples.
+From PBC Require Import Impl.Desc Impl.Mem Impl.Canon Impl.Ledger Impl.Heap Impl.HeapInv Impl.Unpack Proofs.Shape Proofs.LedgerSound Proofs.HeapSafe Proofs.HeapSim Proofs.HeapSim2 Proofs.Examples.
+From PBC Require Proofs.LeafSafe.
 Local Open Scope Z_scope.
 Import ListNotations.
 
@@ -38,6 +39,25 @@ Example C07_nonvacuous :
   (let r := h_run ex_env (fun _ => false) (fun _ => 152) 0 [8; 150; 1; 26; 9; 1] (mkH 0 []) in
    fst r = false /\ h_trace (snd r) = [EvF 0; EvA 0 152] /\ live_of (snd r) = Some []).
 Proof. vm_compute. repeat split. Qed.
+
+(* ---- the two models of the parser agree: with no request refused, the allocation-level model returns NULL exactly when
+   the value-level model (the subject of C01, C04-C06, C09-C11) rejects, and otherwise builds a message of the same shape
+   (same pointer states, has flags, oneof cases, counts: Proofs/HeapSim.v sim_msg).  The bound is where the two really
+   differ: protobuf-c and the allocation-level model give up at the 134217713th member of one message ("too many
+   fields": 23 slabs), the value-level model has no such limit; inputs of at most 268435425 bytes cannot get there.
+   (The difference is real: harness/c/findings/slab_limit.c shows it on the library; listed as a finding under C04.) *)
+Theorem C07_the_two_parser_models_decide_alike : forall (E : env) (szmsg : nat -> Z) d data s,
+  env_ok E = true -> LeafSafe.bytes data -> Mem.zlen data <= 268435425 -> (d < length E)%nat ->
+  (fst (h_unpack E (fun _ => false) szmsg (S (length data)) d data s) = None <-> unpack_top E d data = Err EFail) /\
+  (forall hm, fst (h_unpack E (fun _ => false) szmsg (S (length data)) d data s) = Some hm ->
+     exists m, unpack_top E d data = Ok m /\ sim_msg m hm /\ shape_msg E m = true /\ m_desc m = d).
+Proof. exact h_unpack_accepts_iff. Qed.
+Print Assumptions C07_the_two_parser_models_decide_alike.
+
+Theorem C07_slab_limit_is_where_they_differ : forall plan md k st slabs s, st_at st <> [] -> scan_pre (st_at st) = true ->
+  fst (fst (fst (h_scan plan (S k) md st 22 (Z.shiftl 16 22) slabs s))) = false.
+Proof. exact h_scan_slab_limit. Qed.
+Print Assumptions C07_slab_limit_is_where_they_differ.
 
 (* ---- the monitor that judges the real traces *)
 Theorem C07_monitor_sound_partial : forall evs, monitor evs = true -> discipline evs.
